@@ -7,7 +7,7 @@ CONSTANTS
   IdxSet <- MCIdx
   WSet = {"t4", "t22"}
   ThrSet = {0, 1, 2, 4}
-  PosSet = {0, 2}
+  PosSet = {2}
 INVARIANTS TypeOK
 PROPERTIES SetExact Counts Algebra EqualOK ReadOnly IterMeaning IterRefines
 VIEW View
